@@ -94,7 +94,10 @@ def run_plan_case(case):
         kw["axis"] = case["axis"]
     out = dict(case, vals=vals, codes=codes, chunks=chunks, req=req)
     outs = []
+    from flox import _verif
+
     for m in METHODS:
+        del _verif.EVENTS[:]
         try:
             if case["arrdask"]:
                 ch = ((1, 1), tuple(chunks)) if two_d else (tuple(chunks),)
@@ -109,7 +112,8 @@ def run_plan_case(case):
             r = np.asarray(r)
             if case["func"] in ("var",):
                 pass
-            o = {"kind": "ok", "vals": [pv_out(x, 1e-9) for x in r.reshape(-1)], "shape": list(r.shape)}
+            plan = [e for e in _verif.EVENTS if e["ev"] == "plan"]
+            o = {"kind": "ok", "vals": [pv_out(x, 1e-9) for x in r.reshape(-1)], "shape": list(r.shape), "plan": plan[-1]["method"] if plan else "eager"}
             if m == "map-reduce" or (m is None and not (case["arrdask"] or case["bydask"])):
                 out["groups"] = redcase.label_tokens(g, kind)
         except Exception as e:  # noqa: BLE001
@@ -169,7 +173,7 @@ def run(ctx):
         if not bw_scope:
             outs[3] = {"kind": "ValueError", "vals": [], "msg": "(out of scope: precondition of method='blockwise' not met)"}
         rec["out"] = outs
-        line = {"id": len(lines), "out": [{"kind": o["kind"], "vals": o["vals"]} for o in rec["out"]], "confined": bw_scope and confined(codes, chunks), "skipbw": not bw_scope,
+        line = {"id": len(lines), "out": [{"kind": o["kind"], "vals": o["vals"], "plan": o.get("plan", "-")} for o in rec["out"]], "confined": bw_scope and confined(codes, chunks), "skipbw": not bw_scope,
                 "hascfg": True, "cfg": rec["cfg"]}
         owner[line["id"]] = rec
         lines.append(line)
@@ -189,7 +193,8 @@ def run(ctx):
                 red.append(redcase.tlc_record(r, len(red), check_groups=False))
     ctx.cov["outcome_kinds"] = kinds
     ctrl = {"id": -7, "hascfg": False, "cfg": lines[0]["cfg"], "confined": True, "skipbw": False,
-            "out": [{"kind": "TypeError", "vals": []}, {"kind": "ok", "vals": [[1, 1]]}, {"kind": "ok", "vals": [[2, 1]]}, {"kind": "ok", "vals": [[1, 1]]}]}
+            "out": [{"kind": "TypeError", "vals": [], "plan": "-"}, {"kind": "ok", "vals": [[1, 1]], "plan": "-"}, {"kind": "ok", "vals": [[2, 1]], "plan": "-"},
+                    {"kind": "ok", "vals": [[1, 1]], "plan": "-"}]}
     fails, stats = tlc.validate_trace("TracePlan", lines + [ctrl], tag="c19", shards=8)
     seen = False
     for f in fails:
